@@ -26,7 +26,7 @@ fn base(name: &str) -> Profile {
         worker_kinds: vec![wk(1), wk(2)], initial_workers: vec![0, 1], max_connects: 0,
         classes: vec![class(10_000), class(20_000)],
         submits: vec![arr(&[1, 2, 3], 0, 0)], max_submits: 1, opens: 0, losses: 0, cancels: 0,
-        fails: 0, launch_fails: 0, stops: 0, ticks: 0, forgets: 0, drain: true,
+        fails: 0, launch_fails: 0, stops: 0, ticks: 0, forgets: 0, drain: true, prunes: 0, queue_events: 0,
     }
 }
 
@@ -135,9 +135,45 @@ pub fn get(name: &str) -> Option<Profile> {
             max_submits: 3, fails: 1, cancels: 1, losses: 1, max_connects: 1, pf_max: 2,
             ..base(name)
         },
+        // journal-centred: everything that leaves records, with prunes and queue records
+        "jmixed" => Profile {
+            submits: vec![
+                arr(&[1, 2, 3], 0, 0), arr(&[1, 2], 0, 5),
+                graph(vec![g(1, &[], 0, 0), g(2, &[1], 0, 0), g(3, &[1], 1, 2), g(4, &[2, 3], 0, 0)]),
+                SubmitSpec { max_fails: 0, ..arr(&[1, 2, 3], 0, 0) },
+                SubmitSpec { crash_limit: 2, ..arr(&[1, 2], 0, 3) },
+                SubmitSpec { into_open: true, ..arr(&[], 0, 0) },
+                SubmitSpec { into_open: true, entries: 2, ..arr(&[], 0, 0) },
+                SubmitSpec { into_open: true, ..graph(vec![g(10, &[], 0, 0), g(11, &[10], 0, 0)]) },
+                SubmitSpec { into_open: true, ..graph(vec![g(20, &[10], 0, 0)]) },
+            ],
+            max_submits: 4, opens: 2, losses: 3, cancels: 2, fails: 2, launch_fails: 1, max_connects: 3,
+            forgets: 1, prunes: 2, queue_events: 4, drain: false,
+            ..base(name)
+        },
+        "jloss" => Profile {
+            submits: vec![
+                SubmitSpec { crash_limit: 2, ..arr(&[1, 2, 3], 0, 0) },
+                SubmitSpec { crash_limit: 3, ..arr(&[1, 2], 0, 1) },
+                SubmitSpec { crash_limit: 0, ..arr(&[1, 2], 0, 0) },
+            ],
+            max_submits: 2, losses: 5, max_connects: 5, prunes: 2, pf_max: 2, drain: false,
+            ..base(name)
+        },
+        "jmn" => Profile {
+            worker_kinds: vec![
+                WorkerKind { group: "g1".into(), ..wk(1) },
+                WorkerKind { group: "g1".into(), ..wk(2) },
+            ],
+            initial_workers: vec![0, 1],
+            classes: vec![class(10_000), ClassSpec { variants: vec![VariantSpec { cpus: 0, gpus: 0, min_time: 0 }], n_nodes: 2 }],
+            submits: vec![SubmitSpec { crash_limit: 2, ..arr(&[1], 1, 0) }, arr(&[1, 2], 0, 0), SubmitSpec { crash_limit: 3, ..arr(&[1, 2], 1, 3) }],
+            max_submits: 3, losses: 3, cancels: 1, fails: 1, max_connects: 4, prunes: 1, drain: false,
+            ..base(name)
+        },
         _ => return None,
     };
     Some(p)
 }
 
-pub const ALL: &[&str] = &["happy", "mixed", "retract", "cancel", "loss", "maxfails", "open", "stream", "mn", "time", "variants"];
+pub const ALL: &[&str] = &["jmixed", "jloss", "jmn", "happy", "mixed", "retract", "cancel", "loss", "maxfails", "open", "stream", "mn", "time", "variants"];
